@@ -321,7 +321,32 @@ fn explore_history(ratio: u64, ops: &[Op], scratch: &Scratch, rep: &mut Report, 
         if capped {
             rep.cap("64 loss variants per crash point");
         }
-        for (vi, dropped) in variants.iter().enumerate() {
+        // the write call the process dies in may have taken effect in part: every byte cut of a
+        // short write, and for longer ones the first and last bytes, the middle and both sides of
+        // every line end
+        let mut images: Vec<(Image, BTreeSet<usize>, Option<usize>)> = variants.into_iter().map(|d| (img.clone(), d, None)).collect();
+        if let Some(crashmc::Rec::Write { data, .. }) = rec.journal.get(k) {
+            let len = data.len();
+            let cuts: BTreeSet<usize> = if len <= 96 {
+                (1..len).collect()
+            } else {
+                let mut c: BTreeSet<usize> = [1, 2, len / 2, len - 2, len - 1].into_iter().collect();
+                for (i, b) in data.iter().enumerate() {
+                    if *b == b'\n' {
+                        c.insert(i);
+                        c.insert(i + 1);
+                    }
+                }
+                c.into_iter().filter(|c| *c > 0 && *c < len).collect()
+            };
+            for cut in cuts {
+                if let Some(t) = Image::from_prefix_torn(&live, &rec.journal, k, cut) {
+                    rep.count("torn_write_images", 1);
+                    images.push((t, BTreeSet::new(), Some(cut)));
+                }
+            }
+        }
+        for (vi, (img, dropped, torn)) in images.iter().enumerate() {
             let h = vcore::stable_hash(&(img.hash(dropped), format!("{candidates:?}"), ratio));
             if !seen.insert(h) {
                 continue;
@@ -344,13 +369,13 @@ fn explore_history(ratio: u64, ops: &[Op], scratch: &Scratch, rep: &mut Report, 
                     "crash before call #{k} ({}) of {:?} at ratio {ratio}{}: {detail}",
                     if k < n { rec.journal[k].describe(&live) } else { "end".into() },
                     ops.iter().map(name).collect::<Vec<_>>(),
-                    if dropped.is_empty() { String::new() } else { format!(", unsynced writes lost: {}", dropped.iter().map(|i| rec.journal[*i].describe(&live)).collect::<Vec<_>>().join("; ")) }
+                    if let Some(cut) = torn { format!(", only the first {cut} bytes of that write took effect") } else if dropped.is_empty() { String::new() } else { format!(", unsynced writes lost: {}", dropped.iter().map(|i| rec.journal[*i].describe(&live)).collect::<Vec<_>>().join("; ")) }
                 );
                 rep.violation(Violation {
                     property: "C13".into(),
                     signature: format!("{sig}:during-{}", ops.last().map(|o| name(o).split('(').next().unwrap().to_lowercase()).unwrap_or("open".into())),
                     detail: what,
-                    case: json!({"ratio": ratio, "ops": ops.iter().map(name).collect::<Vec<_>>(), "crash": {"k": k, "dropped": dropped.iter().collect::<Vec<_>>()}}),
+                    case: json!({"ratio": ratio, "ops": ops.iter().map(name).collect::<Vec<_>>(), "crash": {"k": k, "dropped": dropped.iter().collect::<Vec<_>>(), "torn": torn}}),
                 });
             }
         }
@@ -417,6 +442,6 @@ fn main() {
         std::process::exit(3);
     }
     total.bound = json!({"depth": depth, "alphabet": alphabet().iter().map(name).collect::<Vec<_>>(), "rollover_ratios": [1, 2, 1000]});
-    total.rule = format!("every Manifest history of length <= {depth} over the alphabet at rollover ratios 1, 2, 1000 under the syscall journal; every crash point inside the last operation (including Manifest::open's rollover and explicit rollovers), in the model where every completed call persists and in every loss variant of unsynced writes; reopen must give the state before or after the in-flight edit (never part of it) or an explicit error, and Manifest::verify must report nothing; states = distinct (image, admissible states) pairs recovered");
+    total.rule = format!("every Manifest history of length <= {depth} over the alphabet at rollover ratios 1, 2, 1000 under the syscall journal; every crash point inside the last operation (including Manifest::open's rollover and explicit rollovers), in the model where every completed call persists, in every loss variant of unsynced writes, and with the write call the crash falls in torn at every byte (writes <= 96 bytes) or at the first/last bytes, the middle and every line end (longer writes); reopen must give the state before or after the in-flight edit (never part of it) or an explicit error, and Manifest::verify must report nothing; states = distinct (image, admissible states) pairs recovered");
     total.finish(&args, "crash_mani");
 }
